@@ -41,6 +41,31 @@ SelectOK(in, o) ==
     /\ SelectVecOK(ones, nw, o.sel) /\ SelectVecOK(ones, nw, o.selr)
 TraceSelect == IsEvent("select") /\ SelectOK(Ev.in, Ev.out)
 
+\* long bitmaps: the indexes complete, Rank64/Rank128 and both selects at sampled arguments
+RankLOK(in, o) ==
+    LET nw == in.nw  L == in.list  d == in.dense
+        ob(i) == OnesBeforeL(d, L, i) IN
+    /\ IsAsc(L) /\ (Len(L) > 0 => L[1] >= 0 /\ L[Len(L)] < W * nw)
+    /\ o.idx64 = [k \in 1..nw |-> ob(W * (k - 1))]
+    /\ o.idx64t = [k \in 1..(nw + 1) |-> ob(W * (k - 1))]
+    /\ o.idx128 = [k \in 1..(nw \div 2 + 1) |-> ob(Min2(2 * W * (k - 1), W * nw))]
+    /\ \A j \in DOMAIN in.pos :
+          LET want == <<ob(in.pos[j]), BitAtL(d, L, in.pos[j])>> IN
+          /\ in.pos[j] >= 0 /\ in.pos[j] < W * nw
+          /\ o.r64[j] = want /\ o.r64t[j] = want /\ o.r128[j] = want
+TraceRankL == IsEvent("rankl") /\ RankLOK(Ev.in, Ev.out)
+
+SelectLOK(in, o) ==
+    LET nw == in.nw  L == in.list  d == in.dense  n == NOnesL(d, L, nw)
+        sel(i) == <<SelectL(d, L, i), IF i + 1 < n THEN SelectL(d, L, i + 1) ELSE W * nw>> IN
+    /\ IsAsc(L) /\ (Len(L) > 0 => L[1] >= 0 /\ L[Len(L)] < W * nw)
+    /\ o.sidx = [j \in 1..CeilDiv(n, K) |-> SelectL(d, L, K * (j - 1))] /\ o.sidx2 = o.sidx
+    /\ o.ridx = [k \in 1..(nw + 1) |-> OnesBeforeL(d, L, W * (k - 1))]
+    /\ \A j \in DOMAIN in.is :
+          /\ in.is[j] >= 0 /\ in.is[j] < n
+          /\ o.sel[j] = sel(in.is[j]) /\ o.selr[j] = sel(in.is[j])
+TraceSelectL == IsEvent("selectl") /\ SelectLOK(Ev.in, Ev.out)
+
 \* ---- C13
 ScanOK(in, o) ==
     LET s == S(in.bm)  N == W * in.bm.nw IN
@@ -135,7 +160,7 @@ FmtOK(in, o) == o.s = (IF in.slice THEN FmtList(in.ws, in.size) ELSE FmtWord(ToS
 TraceFmt == IsEvent("fmt") /\ FmtOK(Ev.in, Ev.out)
 
 TraceInit == l = 1
-TraceNext == TraceMasks \/ TraceRank \/ TraceSelect \/ TraceScan \/ TraceOf \/ TraceOfMany
+TraceNext == TraceMasks \/ TraceRank \/ TraceRankL \/ TraceSelect \/ TraceSelectL \/ TraceScan \/ TraceOf \/ TraceOfMany
              \/ TraceToArray \/ TraceJoin \/ TraceSlice \/ TraceSelSingle \/ TraceSelU64 \/ TraceFmt
 TraceSpec == TraceInit /\ [][TraceNext]_l
 ============================================================================
